@@ -11,6 +11,7 @@ mod ctx;
 mod pipe;
 mod tables;
 mod c01; mod c02; mod c03; mod c04; mod c05; mod c06; mod c07; mod c08; mod c09; mod c10;
+mod c01_x; mod c02_x;
 mod c11; mod c12; mod c13; mod c14; mod c15; mod c16; mod c17; mod c18; mod c19; mod c20; mod c20_files; mod c06_ext; mod c09_env;
 
 use ctx::{Ctx, Tier};
